@@ -191,6 +191,9 @@ class time_limit:
         return False
 
 
+_IMPORT_STATE = None
+
+
 class Impl:
     """The real implementation, in-process."""
 
@@ -209,7 +212,11 @@ class Impl:
         self.m = dict(blockattributes=blockattributes, delimitedblocks=delimitedblocks, document=document,
                       lists=lists, macros=macros, options=options, quotes=quotes, replacements=replacements,
                       spans=spans)
-        self._import_state = self._snapshot()
+        # import-time state: taken once per process, before anything was rendered
+        global _IMPORT_STATE
+        if _IMPORT_STATE is None:
+            _IMPORT_STATE = self._snapshot()
+        self._import_state = _IMPORT_STATE
 
     def _snapshot(self):
         """Import-time values of every data global of every rimu module (taken before the first render)."""
